@@ -693,7 +693,7 @@ impl ReCompiler {
         let terminal_flags = vec![NODE_NORMAL];
 
         // get terminal symbol
-        let ret = self.parse_terminal(&terminal_flags)?;
+        let mut ret = self.parse_terminal(&terminal_flags)?;
 
         // or in flags from terminal symnbol
         let mut modified_flags = flags.to_vec();
@@ -731,10 +731,10 @@ impl ReCompiler {
                     || quantifier_type == Some('*')
                     || (quantifier_type == Some('{') && self.bracket_min == 0)
                 {
-                    return Ok(Operation::from(Nothing));
-                } else {
-                    quantifier_type = None
+                    // (a reluctant marker may still follow and must be consumed below)
+                    ret = Operation::from(Nothing);
                 }
+                quantifier_type = None
             }
 
             if ret.matches_empty_string() == MATCHES_ZLS_ANYWHERE {
